@@ -125,4 +125,50 @@ theorem C09_every_derived_field_is_compared :
 /-- Non-vacuity of the chain theorem: a chain with zone, region and prime blocks. -/
 example : (runChain Acc.genesis [(2, 5), (2, 7), (1, 3), (2, 4), (0, 9), (2, 1)]).T = 29 := by decide
 
+/-- the conversion flow amount stays within its two clamps -/
+theorem C09_flow_amount_bounded (prev cur w minFlow : Nat) :
+    flowAmount prev cur w minFlow ≤ max minFlow (2 * prev) ∧
+    (minFlow ≤ 2 * prev → minFlow ≤ flowAmount prev cur w minFlow) := by
+  unfold flowAmount
+  simp only []
+  refine ⟨?_, ?_⟩
+  · split
+    · exact Nat.le_max_left _ _
+    · split
+      · exact Nat.le_max_right _ _
+      · next h1 h2 => exact Nat.le_trans (Nat.le_of_not_gt h2) (Nat.le_max_right _ _)
+  · intro hm
+    split
+    · exact Nat.le_refl _
+    · split
+      · exact hm
+      · next h1 _ => exact Nat.le_of_not_gt h1
+
+/-- a steady flow keeps the average where it is -/
+theorem C09_flow_amount_steady (prev w minFlow : Nat) (hw : 0 < w) (hm : minFlow ≤ prev) :
+    flowAmount prev prev w minFlow = prev := by
+  unfold flowAmount
+  have : (prev * (w - 1) + prev) / w = prev := by
+    have : prev * (w - 1) + prev = prev * w := by
+      cases w with
+      | zero => omega
+      | succ n => simp [Nat.mul_succ]
+    rw [this, Nat.mul_div_cancel _ hw]
+  simp only [this]
+  have h1 : ¬ prev < minFlow := by omega
+  have h2 : ¬ prev > 2 * prev := by omega
+  simp [h1, h2]
+
+/-- the average moves with the block's own conversion amount (as long as the floor is not above the cap, which holds
+whenever the previous amount is itself at least the floor) -/
+theorem C09_flow_amount_monotone (prev c1 c2 w minFlow : Nat) (h : c1 ≤ c2) (hm : minFlow ≤ 2 * prev) :
+    flowAmount prev c1 w minFlow ≤ flowAmount prev c2 w minFlow := by
+  unfold flowAmount
+  have hn : (prev * (w - 1) + c1) / w ≤ (prev * (w - 1) + c2) / w := Nat.div_le_div_right (by omega)
+  simp only []
+  split <;> split <;> (try split) <;> (try split) <;> omega
+
+example : flowAmount 1000 4000 4 100 = 1750 ∧ flowAmount 1000 40000 4 100 = 2000 ∧ flowAmount 1000 0 4 900 = 900 ∧
+          baseFee 2553 1 5 21000 = 0 ∧ baseFee 2553000000 1 5 21000 = 607857 := by decide
+
 end QuaiVerif.HeaderRules
